@@ -158,3 +158,22 @@ Definition spec_run (ops : list aop) (st : kind * salign) : kind * salign := fol
     row or of the added rows, [f] one of the three maps (or the identity) *)
 Definition derived (k : kind) (x y : Z) : Prop :=
   y = x \/ y = comp k x \/ y = t2u x \/ y = u2t x.
+
+(** ** what a row of the annotatable class denotes (the abstraction function)
+
+    [abs] (Spec/IndelMapSpec.v) reads the map as a gap mask, [realise]
+    (Model/View.v) is the displayed sequence; the row denotes the mask filled
+    with the residues.  [RowWF] is the class invariant: a well-formed map, a
+    well-formed view, and as many residues in the map as the sequence displays. *)
+From CG3 Require Import Spec.IndelMapSpec Spec.ViewSpec.
+
+Definition row_str (r : arow) : list Z := fill (abs (amap r)) (realise (adata r)).
+
+Definition RowWF (r : arow) : Prop :=
+  IndelMapSpec.WF (amap r) /\ SWF (adata r) /\ parent_length (amap r) = zlen (realise (adata r)).
+
+Definition astr (a : oalign) : salign := map (fun nr => (fst nr, row_str (snd nr))) a.
+
+(** the alignment invariant: every row well formed, one moltype, rows equally long *)
+Definition AlnWF (a : oalign) : Prop :=
+  a <> [] /\ Forall (fun nr => RowWF (snd nr) /\ skind (adata (snd nr)) = al_kind a) a /\ rect (astr a).
